@@ -8,8 +8,8 @@ package io
 //@ func ToByteReader
 //@   ghostinit result
 //@   ensures identity [C03,C13]: implements(r, "io.ByteReader") ==> result == r
-//@   ensures wrapper [C03,C13]: !implements(r, "io.ByteReader") ==> freshobj(result) && typeis(result, "*v2/internal/io.readerPlusByte")
-//@   ensures same_cell [C02,C03,C09]: cell(result) == cell(r) && lim(result) == lim(r)
+//@   ensures wrapper [C03,C13,C14]: !implements(r, "io.ByteReader") ==> freshobj(result) && typeis(result, "*v2/internal/io.readerPlusByte")
+//@   ensures same_cell [C02,C03,C09,C14]: cell(result) == cell(r) && lim(result) == lim(r)
 //@   ensures nonnil: result != nil
 
 //@ func ToByteReadSeeker
@@ -46,9 +46,9 @@ package io
 //@   ensures other_whence_is_refused [C03,C09]: whence != 0 && whence != 1 ==> err != nil && result0 == 0
 //@   note not `implements (io.Seeker).Seek`: seeking past the end of the stream reports the io.EOF of the discarding copy
 //@   modifies pos(drsb), drsb.offset
-//@   ensures start [C03]: err == nil && whence == 0 ==> result0 == offset && pos(drsb) == sbase(drsb) + offset
-//@   ensures cur [C03]: err == nil && whence == 1 ==> pos(drsb) == old(pos(drsb)) + offset && result0 == pos(drsb) - sbase(drsb)
-//@   ensures forward_only [C03]: pos(drsb) >= old(pos(drsb))
+//@   ensures start [C03,C14]: err == nil && whence == 0 ==> result0 == offset && pos(drsb) == sbase(drsb) + offset
+//@   ensures cur [C03,C14]: err == nil && whence == 1 ==> pos(drsb) == old(pos(drsb)) + offset && result0 == pos(drsb) - sbase(drsb)
+//@   ensures forward_only [C03,C14]: pos(drsb) >= old(pos(drsb))
 
 //@ func NewOffsetWriter
 //@   ghostinit result
